@@ -186,6 +186,98 @@ def rule_KC(run: Run) -> RuleResult:
     return res
 
 
+# ------------------------------------------------------------------ R-KU
+_NON_UNION = ("binop:BitXor", "binop:BitAnd", "binop:Sub", "call:symmetric_difference", "call:intersection", "call:difference",
+              "call:symmetric_difference_update", "call:intersection_update", "call:difference_update")
+_UNION = ("binop:BitOr", "call:union", "call:update")
+
+
+def _mentions_part(t) -> bool:
+    """The term contains the result of an operation on a part (a Val) somewhere."""
+    from .terms import Val, Sym, Seq
+    if isinstance(t, Val):
+        return True
+    for a in list(getattr(t, "args", ()) or ()) + list(getattr(t, "items", ()) or ()) + ([t.elem] if hasattr(t, "elem") else []) + \
+            ([t.keyterm] if getattr(t, "keyterm", None) is not None else []):
+        if _mentions_part(a):
+            return True
+    return False
+
+
+def rule_KU(run: Run) -> RuleResult:
+    """The key sets of the parts are put together by union, and by nothing else."""
+    from .terms import Sym, Seq, Val
+    res = RuleResult("R-KU")
+    nec = ("keys()/explain() of a composite is the union of what its parts report: a symmetric difference or an intersection drops every key "
+           "two parts share (or do not share), a difference drops a part's keys, and `a or b` drops b's keys whenever a's set is non-empty — "
+           "the fingerprint then ignores an option the value depends on and a stored value is served for other options (C01, C03, C16)")
+    n_union = 0
+
+    def walk(t, found):
+        nonlocal n_union
+        if isinstance(t, Sym):
+            if t.head in _UNION:
+                n_union += 1
+            if t.head in ("or", "and") and sum(1 for a in t.args if _mentions_part(a)) >= 2:
+                found.append(t)         # `a.keys(o) or b.keys(o)`: b is dropped whenever a reports anything
+            if t.head in _NON_UNION:
+                # taking away keys the object supplies itself (Map removes the keys it iterates over) is not a combination
+                # of parts: only the operand that is removed may be free of part results
+                if t.head == "binop:Sub" and len(t.args) == 2 and not _mentions_part(t.args[1]):
+                    pass
+                elif any(_mentions_part(a) for a in t.args):
+                    found.append(t)
+            for a in t.args:
+                walk(a, found)
+        elif isinstance(t, Seq):
+            for a in t.items:
+                walk(a, found)
+        elif isinstance(t, Val):
+            pass
+        elif hasattr(t, "elem"):
+            walk(t.elem, found)
+    for cls in run.node_classes():
+        for op in ("keys", "explain"):
+            f, ln = _meth_loc(run, cls, op)
+            paths = normal(run.paths(cls, op))
+            if not paths:
+                continue
+            found: List = []
+            for p in paths:
+                if p.ret is not None:
+                    walk(p.ret, found)
+            shown = sorted({t.key()[:110] for t in found})
+            res.add(f"{cls.qualname}:{op}:parts combined by union only", not found, f, ln,
+                    "no difference / intersection / symmetric difference of part results" if not found else f"combines part results with {shown[0]}", nec)
+            # the key set one part reports never decides whether another part is asked: paths that differ only in a test of such a
+            # result must ask the same parts
+            groups: Dict[tuple, List] = {}
+            tested = False
+            for p in paths:
+                sig = []
+                for c in p.conds:
+                    t = c[2] or c[0]
+                    if c[2] and (f"Val({op}," in c[2]):
+                        tested = True
+                        continue
+                    sig.append((t, c[1]))
+                groups.setdefault(tuple(sorted(set(sig))), []).append(p)
+            if tested:
+                bad = None
+                for sig, ps in groups.items():
+                    sets_ = {frozenset(op_targets(p, op)) for p in ps}
+                    if len(sets_) > 1:
+                        a_, b_ = sorted(sets_, key=len)[0], sorted(sets_, key=len)[-1]
+                        bad = sorted(b_ - a_)
+                res.add(f"{cls.qualname}:{op}:a part's key set does not decide which parts are asked", bad is None, f, ln,
+                        "every path asks the same parts whatever a part reported" if bad is None else
+                        f"{bad} are asked only when the key set of another part is empty (`a.{op}(o) or b.{op}(o)` is not a union)", nec)
+    res.count("union_sites", n_union)
+    if n_union < 60:
+        raise AnalysisError(f"R-KU: only {n_union} union sites seen in keys()/explain() results (anchor vanished)")
+    return res
+
+
 # ------------------------------------------------------------------ R-VA
 def rule_VA(run: Run) -> RuleResult:
     res = RuleResult("R-VA")
@@ -400,9 +492,8 @@ def _opts_forms(paths, skip_failed_paths=False) -> Dict[str, Set[str]]:
         for e in p.events:
             if e.kind != "op" or e.failed or not isinstance(e.target, Child):
                 continue
-            if e.opts is None:
-                continue
-            out.setdefault(e.target.path, set()).add(e.opts.key())
+            # an operation handed no options at all (child.explain()) runs on the empty dictionary
+            out.setdefault(e.target.path, set()).add(e.opts.key() if e.opts is not None else "<no options>")
     return out
 
 
